@@ -4,6 +4,11 @@
    B  A + rename every function-local variable (not parameters, not names used in strings, nested scopes or as globals)
    C  A + a logging statement at the top of every function body
    D  A + scope-aware renaming of locals in every function, also those with lambdas / comprehensions / local functions
+   E  A + operands of every multiplication swapped
+   H  A + every if / else (and conditional expression) inverted: `if not c: B else: A`
+   G  A + every comparison flipped (`a < b` -> `b > a`)
+   K  A + a temporary before every return
+   O  A + methods of every class in reverse order
 Usage: tools/benign_auto.py [A|B|C ...]"""
 import ast, json, os, shutil, subprocess, sys, tempfile
 VERIF = os.path.dirname(os.path.dirname(os.path.abspath(__file__)))
@@ -75,6 +80,77 @@ class DeepRenamer(ast.NodeTransformer):
         return node
 
 
+class MulSwap(ast.NodeTransformer):
+    """E: swap the operands of every multiplication (exactly commutative for numbers, numpy arrays and list * int)."""
+
+    def visit_BinOp(self, node):
+        self.generic_visit(node)
+        if isinstance(node.op, ast.Mult):
+            node.left, node.right = node.right, node.left
+        return node
+
+
+class IfInvert(ast.NodeTransformer):
+    """H: `if c: A else: B` -> `if not c: B else: A` for every if with a plain else branch (not an elif chain), and
+    `a if c else b` -> `b if not c else a`."""
+
+    def visit_If(self, node):
+        self.generic_visit(node)
+        if node.orelse and not (len(node.orelse) == 1 and isinstance(node.orelse[0], ast.If)):
+            node.test = ast.UnaryOp(op=ast.Not(), operand=node.test)
+            node.body, node.orelse = node.orelse, node.body
+        return node
+
+    def visit_IfExp(self, node):
+        self.generic_visit(node)
+        node.test = ast.UnaryOp(op=ast.Not(), operand=node.test)
+        node.body, node.orelse = node.orelse, node.body
+        return node
+
+
+class CmpFlip(ast.NodeTransformer):
+    """G: `a < b` -> `b > a`, `a == b` -> `b == a` ... for every single-operator comparison."""
+    FLIP = {ast.Lt: ast.Gt, ast.Gt: ast.Lt, ast.LtE: ast.GtE, ast.GtE: ast.LtE, ast.Eq: ast.Eq, ast.NotEq: ast.NotEq}
+
+    def visit_Compare(self, node):
+        self.generic_visit(node)
+        if len(node.ops) == 1 and type(node.ops[0]) in self.FLIP:
+            node.left, node.comparators = node.comparators[0], [node.left]
+            node.ops = [self.FLIP[type(node.ops[0])]()]
+        return node
+
+
+class RetTemp(ast.NodeTransformer):
+    """K: `return e` -> `ret_q = e; return ret_q` (a temporary before every return)."""
+
+    def generic_visit(self, node):
+        super().generic_visit(node)
+        for field in ("body", "orelse", "finalbody"):
+            b = getattr(node, field, None)
+            if isinstance(b, list):
+                out = []
+                for st in b:
+                    if isinstance(st, ast.Return) and st.value is not None:
+                        out.append(ast.Assign(targets=[ast.Name(id="ret_q", ctx=ast.Store())], value=st.value, lineno=st.lineno))
+                        out.append(ast.Return(value=ast.Name(id="ret_q", ctx=ast.Load())))
+                    else:
+                        out.append(st)
+                setattr(node, field, out)
+        return node
+
+
+class MethodReverse(ast.NodeTransformer):
+    """O: the methods of every class in reverse order (other class-level statements keep their places)."""
+
+    def visit_ClassDef(self, node):
+        self.generic_visit(node)
+        idx = [i for i, st in enumerate(node.body) if isinstance(st, ast.FunctionDef) and not st.decorator_list]
+        fns = [node.body[i] for i in idx][::-1]
+        for i, f in zip(idx, fns):
+            node.body[i] = f
+        return node
+
+
 class Logger(ast.NodeTransformer):
     def visit_FunctionDef(self, node):
         self.generic_visit(node)
@@ -98,6 +174,16 @@ def transform(root, kind):
                 tree = DeepRenamer().visit(tree)
             if kind == "C":
                 tree = Logger().visit(tree)
+            if kind == "E":
+                tree = MulSwap().visit(tree)
+            if kind == "H":
+                tree = IfInvert().visit(tree)
+            if kind == "G":
+                tree = CmpFlip().visit(tree)
+            if kind == "K":
+                tree = RetTemp().visit(tree)
+            if kind == "O":
+                tree = MethodReverse().visit(tree)
             ast.fix_missing_locations(tree)
             out = ast.unparse(tree) + "\n"
             compile(out, p, "exec")
@@ -105,7 +191,7 @@ def transform(root, kind):
 
 
 def main():
-    kinds = sys.argv[1:] or ["A", "B", "C", "D"]
+    kinds = sys.argv[1:] or ["A", "B", "C", "D", "E", "H", "G", "K", "O"]
     props = [c["property_id"] for c in json.load(open(os.path.join(VERIF, "MANIFEST.json")))["checks"]]
     bad = 0
     for k in kinds:
